@@ -121,8 +121,11 @@ def c01(tier):
     inv = ["MapRefinement", "LookupAgrees", "PairsAreContents"]
     return generic("C01", tier,
                    [dict(invariants=inv, level=5, emit="EmitC01")],
-                   [dict(keys="KFull", look="LFull", vals="VFull", maxlive=4, maxbatch=3,
-                         invariants=inv, level=6, emit="EmitC01")],
+                   [dict(invariants=inv, level=6, emit="EmitC01"),
+                    dict(keys="KFull", look="LFull", vals="VFull", maxlive=3, features="FDirect",
+                         invariants=inv, level=4, emit="EmitC01"),
+                    dict(keys="KOne", look="LOne", vals="VShare", maxlive=1, maxbatch=2, invariants=inv,
+                         view="ViewHist", level=9, emit="EmitC01")],
                    modes=("plain", "batch"), ntr=(100, 1500),
                    sim=dict(keys="KFull", look="LFull", vals="VFull", maxlive=4, maxbatch=3, invariants=inv,
                             features="FBatchNoop", emit="EmitC01"))
@@ -136,11 +139,12 @@ def c02(tier):
     return generic("C02", tier,
                    [dict(invariants=inv, properties=pr, level=5, emit="EmitC01"),
                     dict(th, vals="VThreshA", features="FDirect", level=4)],
-                   [dict(keys="KFull", look="LFull", vals="VFull", maxlive=4, maxbatch=3,
-                         invariants=inv, properties=pr, level=6, emit="EmitC01"),
+                   [dict(invariants=inv, properties=pr, level=6, emit="EmitC01"),
+                    dict(keys="KFull", look="LFull", vals="VFull", maxlive=3, features="FDirect",
+                         invariants=inv, properties=pr, level=4, emit="EmitC01"),
                     dict(th, vals="VThreshA", level=5), dict(th, vals="VThreshB", level=5),
-                    dict(th, vals="VThreshC", level=6),
-                    dict(keys="KLong", look="LLong", vals="VLong", maxlive=4, invariants=inv,
+                    dict(th, vals="VThreshC", features="FDirect", level=5),
+                    dict(keys="KLong", look="LLong", vals="VLong", maxlive=3, features="FDirect", invariants=inv,
                          properties=pr, level=5, emit="EmitC01")],
                    modes=("plain", "batch"), ntr=(100, 1500),
                    sim=[dict(th, vals="VThreshC", features="FBatchNoop", maxlive=4),
@@ -157,7 +161,7 @@ def c04(tier):
     return generic("C04", tier,
                    [dict(base, level=4, view="ViewFull")],
                    [dict(base, level=5, view="ViewFull"),
-                    dict(base, level=6, view="ViewLight", invariants=["Readable"])],
+                    dict(base, level=5, view="ViewLight", invariants=["Readable"], vals="VFull")],
                    opts=("past",), modes=("second", "batch"), ntr=(80, 1000), prune=False,
                    sim=dict(base, features="FHistNoop", view="ViewFull", maxlive=4))
 
@@ -172,8 +176,8 @@ def c05(tier):
                view="ViewHist")
     return generic("C05", tier,
                    [dict(base, level=5), dict(one, level=9)],
-                   [dict(one, level=11), dict(base, level=7, maxbatch=3, features="FBatchNoop"),
-                    dict(base, level=6, keys="KShare", look="LShare", vals="VShare", maxbatch=3)],
+                   [dict(one, level=11), dict(base, level=6, maxbatch=3),
+                    dict(base, level=5, keys="KShare", look="LShare", vals="VShare", maxbatch=3)],
                    modes=("batch",), ntr=(100, 1500),
                    sim=[dict(base, features="FBatchFailNoop", maxbatch=4, maxlive=4),
                         dict(base, features="FBatchFailNoop", keys="KShare", look="LShare", vals="VShare",
@@ -188,10 +192,9 @@ def c06(tier):
     return generic("C06", tier,
                    [dict(one, level=9), dict(base, level=5, features="FBatchNoop"),
                     dict(base, level=5, keys="KShare", look="LShare", vals="VShare", features="FDirect")],
-                   [dict(base, level=7, keys="KFull", look="LFull", vals="VFull", maxlive=4,
-                         features="FBatchNoop", maxbatch=3),
-                    dict(base, level=7, keys="KShare", look="LShare", vals="VShare", maxlive=4,
-                         features="FBatchNoop", maxbatch=3)],
+                   [dict(one, level=11), dict(base, level=6, features="FBatchNoop"),
+                    dict(base, level=5, keys="KFull", look="LFull", vals="VFull", maxlive=3, features="FDirect"),
+                    dict(base, level=6, keys="KShare", look="LShare", vals="VShare", maxlive=4, features="FDirect")],
                    modes=("plain", "batch"), ntr=(100, 1500), prune=True,
                    sim=[dict(base, features="FBatchNoop", maxbatch=4, maxlive=4, keys="KFull", look="LFull",
                              vals="VFull"),
@@ -209,7 +212,8 @@ def c07(tier):
     return generic("C07", tier,
                    [dict(base, level=5, features="FFaultsDirect"),
                     dict(base, level=5, prune="OnlyPrune", keys="KFaults3", maxlive=2, maxbatch=1)],
-                   [dict(base, level=6, maxlost=3), dict(base, level=5, vals="VQuick")],
+                   [dict(base, level=6, features="FFaultsDirect", maxlost=3), dict(base, level=5),
+                    dict(base, level=5, vals="VQuick", features="FFaultsDirect")],
                    modes=("faults",), ntr=(150, 2000),
                    sim=dict(base, features="FFaultsNoop", maxlost=3, maxlive=4, emit="EmitC07"),
                    need_tags=("missing-node-outcome", "incomplete-database", "calls:traverse:missing"))
@@ -220,7 +224,8 @@ def c08(tier):
     base = dict(features="FDirect", invariants=inv, emit=None)
     return generic("C08", tier,
                    [dict(base, level=5)],
-                   [dict(base, level=6, keys="KFull", look="LFull", vals="VQuick", maxlive=4)],
+                   [dict(base, level=5, keys="KFull", look="LFull", vals="VQuick", maxlive=3),
+                    dict(base, level=6, prune="OnlyNoPrune")],
                    modes=(), need_tags=("has-extension", "has-branch", "embedded-child", "hashed-child"),
                    sim=dict(base, features="FBatchNoop", keys="KFull", look="LFull", vals="VQuick", maxlive=5,
                             emit="EmitC08"), sim_n=(12, 240))
@@ -232,7 +237,8 @@ def c10(tier):
     rc = generic("C10", tier,
                  [dict(base, level=5), dict(base, level=4, keys="KFull", look="LFull", vals="VQuick", maxlive=3,
                                             prune="OnlyNoPrune")],
-                 [dict(base, level=6, keys="KFull", look="LFull", vals="VQuick", maxlive=4)],
+                 [dict(base, level=5, keys="KFull", look="LFull", vals="VQuick", maxlive=3),
+                  dict(base, level=6, prune="OnlyNoPrune")],
                  modes=(), need_tags=("has-extension", "has-branch", "calls:iter.nodes"),
                  sim=dict(base, features="FBatchNoop", keys="KFull", look="LFull", vals="VQuick", maxlive=5,
                           emit="EmitC10"), sim_n=(12, 240), finish=False)
@@ -253,7 +259,7 @@ def c03(tier):
     base = dict(features="FDirect", invariants=inv, emit=None, prune="OnlyNoPrune")
     return generic("C03", tier,
                    [dict(base, level=4)],
-                   [dict(base, level=5, keys="KFull", look="LFull", vals="VQuick", maxlive=4),
+                   [dict(base, level=5, keys="KFull", look="LFull", vals="VQuick", maxlive=3),
                     dict(base, level=5, prune="OnlyPrune")],
                    modes=(), need_tags=("has-extension", "has-branch", "embedded-child", "hashed-child"),
                    sim=dict(base, features="FDirectNoop", keys="KFull", look="LFull", vals="VQuick", maxlive=4,
